@@ -292,6 +292,9 @@ def concurrent(v, d, drv, seed, tier, only=None, drvname="keeperdrv"):
         n = 60 if tier == "quick" else 600
         behs, w = vlib.tlc_generate(d, "KeeperConcGen.tla", "KeeperConcGen.cfg", n, 2, seed + 5)
         sc = [dict(sc=20000 + i, seed=seed * 7919 + i, steps=[], opt=dict(mode="conc", spaces=6, init={}, threads=b[0]["threads"])) for i, b in enumerate(behs)]
+        if drvname == "keeperdrv":
+            for s_ in sc[1::2]:
+                s_["opt"]["realdb"] = True      # every second history with the real plot engine behind the keeper
     else:
         sc = [only]
     sf, tf = os.path.join(d, "conc.json"), os.path.join(d, "conc.ndjson")
